@@ -573,6 +573,7 @@ func RunModel(ctx *vrun.Ctx, prop string, m ModelCfg, timeout time.Duration) err
 		i := order[oi]
 		p := paths[i]
 		defer release(i)
+		defer guardPanic(ctx, fmt.Sprintf("model %s, path %d of scenario %s", m.Name, i, scenarioKey(ScenarioOf(p[0].From.State))))
 		sc := ScenarioOf(p[0].From.State)
 		f, fseed := getF(i, sc)
 		var err error
